@@ -134,7 +134,7 @@
         std::mem::forget(r);
     }
 
-// @h id=H8.3-k$k prop=C08 rep="k:0-5" quick="0-5" cap=600 mem=14 unwind=12 uw="from_reader_impl=3" checks=std alloclimit=31 stubs="allocator model: Kani's __rust_alloc/__rust_alloc_zeroed/__rust_realloc plus an assertion that no single request exceeds 2^31 bytes" bounds="entry count = one of {2^63, 2^64-1, 2^40, 2^35, 16385, 3} (10-byte varint), followed by 2 arbitrary bytes; a single allocation request above 2^31 bytes is an assertion failure"
+// @h id=H8.3-k$k prop=C08 rep="k:0-5" quick="0,2,4" cap=600 mem=14 unwind=12 uw="from_reader_impl=3" checks=std alloclimit=31 stubs="allocator model: Kani's __rust_alloc/__rust_alloc_zeroed/__rust_realloc plus an assertion that no single request exceeds 2^31 bytes" bounds="entry count = one of {2^63, 2^64-1, 2^40, 2^35, 16385, 3} (10-byte varint), followed by 2 arbitrary bytes; a single allocation request above 2^31 bytes is an assertion failure"
     /// an entry count near 2^64 that is not backed by data is answered with an error: no capacity-overflow panic, no absurd allocation
     #[kani::proof]
     fn h8_3_count_hazard_k$k() {
@@ -261,7 +261,7 @@
         std::mem::forget(d);
     }
 
-// @h id=H8.3r-k$k prop=C08 rep="k:0-2" quick="0-2" cap=600 mem=14 unwind=12 uw="from_reader_impl=3" checks=std alloclimit=31 stubs="allocator model: Kani's __rust_alloc/__rust_alloc_zeroed/__rust_realloc plus an assertion that no single request exceeds 2^31 bytes" bounds="Directory::from_reader with an UNTRUSTED declared length: entry count one of {2^63, 2^40, 2^64-1} followed by 2 arbitrary bytes, declared directory length one of {2^64-1, 2^42, 2^64-1} (concrete: a symbolic length makes every read through Take symbolic)"
+// @h id=H8.3r-k$k prop=C08 rep="k:0-2" quick="0-1" cap=600 mem=14 unwind=12 uw="from_reader_impl=3" checks=std alloclimit=31 stubs="allocator model: Kani's __rust_alloc/__rust_alloc_zeroed/__rust_realloc plus an assertion that no single request exceeds 2^31 bytes" bounds="Directory::from_reader with an UNTRUSTED declared length: entry count one of {2^63, 2^40, 2^64-1} followed by 2 arbitrary bytes, declared directory length one of {2^64-1, 2^42, 2^64-1} (concrete: a symbolic length makes every read through Take symbolic)"
     /// a hostile entry count combined with a hostile declared section length is still answered with an error (no capacity overflow, no absurd allocation)
     #[kani::proof]
     fn h8_3r_count_and_length_hazard_k$k() {
